@@ -1,1 +1,166 @@
-//! transaction generators (filled in with C01)
+//! Transaction generator: field values from the boundary sets, scripts from the script grammar,
+//! coinbase (null outpoint, opaque script) and near-null inputs, optional padding with many minimal
+//! inputs/outputs to cross the compact-size count boundaries cheaply.
+use super::script::{self as gs, El};
+use super::{u32_edge, u64_edge, Bytes};
+use crate::refimpl::wire::{RIn, ROut, RTx};
+use proptest::prelude::*;
+use serde::{Deserialize, Serialize};
+
+#[derive(Clone, Debug, PartialEq, Eq, Serialize, Deserialize)]
+pub enum Txid {
+    Null,
+    /// null except the given byte position set to 1
+    NearNull(u8),
+    Bytes(#[serde(with = "super::hexser")] Vec<u8>),
+}
+
+impl Txid {
+    pub fn wire(&self) -> [u8; 32] {
+        match self {
+            Txid::Null => [0; 32],
+            Txid::NearNull(p) => {
+                let mut b = [0u8; 32];
+                b[(*p % 32) as usize] = 1;
+                b
+            }
+            Txid::Bytes(v) => {
+                let mut b = [0u8; 32];
+                for (i, x) in v.iter().take(32).enumerate() {
+                    b[i] = *x;
+                }
+                b
+            }
+        }
+    }
+}
+
+#[derive(Clone, Debug, PartialEq, Eq, Serialize, Deserialize)]
+pub enum GScript {
+    Els(Vec<El>),
+    /// arbitrary bytes (only meaningful for inputs with the null outpoint)
+    Opaque(Bytes),
+}
+
+impl GScript {
+    pub fn bytes(&self) -> Vec<u8> {
+        match self {
+            GScript::Els(e) => gs::to_bytes(e),
+            GScript::Opaque(b) => b.to_vec(),
+        }
+    }
+}
+
+#[derive(Clone, Debug, PartialEq, Eq, Serialize, Deserialize)]
+pub struct GIn {
+    pub txid: Txid,
+    pub vout: u32,
+    pub script: GScript,
+    pub sequence: u32,
+}
+
+#[derive(Clone, Debug, PartialEq, Eq, Serialize, Deserialize)]
+pub struct GOut {
+    pub value: u64,
+    pub script: Vec<El>,
+}
+
+#[derive(Clone, Debug, PartialEq, Eq, Serialize, Deserialize)]
+pub struct GTx {
+    pub version: u32,
+    pub ins: Vec<GIn>,
+    pub outs: Vec<GOut>,
+    pub locktime: u32,
+    /// extra minimal inputs appended after `ins` (txid derived from the index, empty script)
+    pub pad_ins: u32,
+    /// extra minimal outputs appended after `outs` (value = index, empty script)
+    pub pad_outs: u32,
+}
+
+pub fn pad_in(i: u32) -> RIn {
+    let mut txid = [0x11u8; 32];
+    txid[..4].copy_from_slice(&i.to_le_bytes());
+    RIn { txid_wire: txid, vout: i, script: vec![], sequence: 0xffff_fffe_u32.wrapping_sub(i) }
+}
+
+pub fn pad_out(i: u32) -> ROut {
+    ROut { value: i as u64, script: vec![] }
+}
+
+impl GIn {
+    pub fn is_null_outpoint(&self) -> bool {
+        self.txid.wire() == [0u8; 32] && self.vout == 0xffff_ffff
+    }
+    pub fn to_ref(&self) -> RIn {
+        RIn { txid_wire: self.txid.wire(), vout: self.vout, script: self.script.bytes(), sequence: self.sequence }
+    }
+}
+
+impl GOut {
+    pub fn to_ref(&self) -> ROut {
+        ROut { value: self.value, script: gs::to_bytes(&self.script) }
+    }
+}
+
+impl GTx {
+    pub fn to_ref(&self) -> RTx {
+        let mut ins: Vec<RIn> = self.ins.iter().map(|i| i.to_ref()).collect();
+        for k in 0..self.pad_ins {
+            ins.push(pad_in(k));
+        }
+        let mut outs: Vec<ROut> = self.outs.iter().map(|o| o.to_ref()).collect();
+        for k in 0..self.pad_outs {
+            outs.push(pad_out(k));
+        }
+        RTx { version: self.version, ins, outs, locktime: self.locktime }
+    }
+}
+
+pub fn txid() -> impl Strategy<Value = Txid> {
+    prop_oneof![
+        8 => prop::collection::vec(any::<u8>(), 32).prop_map(Txid::Bytes),
+        1 => Just(Txid::Null),
+        1 => (0u8..32).prop_map(Txid::NearNull),
+    ]
+}
+
+/// input; opaque scripts are generated exactly when the outpoint is the null outpoint
+pub fn gin(big: bool, depth: u32) -> BoxedStrategy<GIn> {
+    (txid(), prop_oneof![2 => u32_edge(), 1 => Just(0xffff_ffffu32), 1 => 0u32..4], gs::elements(big, false, depth, false), prop::collection::vec(any::<u8>(), 0..60), u32_edge())
+        .prop_map(|(txid, vout, els, opaque, sequence)| {
+            let null = txid.wire() == [0u8; 32] && vout == 0xffff_ffff;
+            GIn { txid, vout, script: if null { GScript::Opaque(Bytes::Lit(opaque)) } else { GScript::Els(els) }, sequence }
+        })
+        .boxed()
+}
+
+pub fn coinbase_in() -> BoxedStrategy<GIn> {
+    (prop_oneof![4 => prop::collection::vec(any::<u8>(), 0..100).prop_map(Bytes::Lit), 1 => (super::len_edge(false), any::<u8>()).prop_map(|(len, seed)| Bytes::Fill { len: len as u32, seed })], u32_edge())
+        .prop_map(|(script, sequence)| GIn { txid: Txid::Null, vout: 0xffff_ffff, script: GScript::Opaque(script), sequence })
+        .boxed()
+}
+
+pub fn gout(big: bool, depth: u32) -> BoxedStrategy<GOut> {
+    (u64_edge(), gs::elements(big, false, depth, false)).prop_map(|(value, script)| GOut { value, script }).boxed()
+}
+
+/// small/medium transactions; `counts_big` adds padding classes that cross 252/253 (and 65535/65536 when `huge`)
+pub fn gtx(big_scripts: bool, counts_big: bool, huge: bool) -> BoxedStrategy<GTx> {
+    let pad = move || -> BoxedStrategy<u32> {
+        if !counts_big {
+            Just(0u32).boxed()
+        } else if huge {
+            prop_oneof![30 => Just(0u32), 6 => prop::sample::select(vec![250u32, 251, 252, 253, 254, 255, 256]), 1 => prop::sample::select(vec![65533u32, 65534, 65535, 65536, 65537])].boxed()
+        } else {
+            prop_oneof![30 => Just(0u32), 6 => prop::sample::select(vec![250u32, 251, 252, 253, 254, 255, 256])].boxed()
+        }
+    };
+    let ins = prop_oneof![
+        8 => prop::collection::vec(gin(big_scripts, 2), 0..4),
+        1 => coinbase_in().prop_map(|c| vec![c]),
+        1 => (coinbase_in(), prop::collection::vec(gin(false, 1), 0..3), any::<u16>()).prop_map(|(c, mut v, p)| { let i = super::pick(p, v.len() + 1); v.insert(i, c); v }),
+    ];
+    (u32_edge(), ins, prop::collection::vec(gout(big_scripts, 2), 0..4), u32_edge(), pad(), pad())
+        .prop_map(|(version, ins, outs, locktime, pad_ins, pad_outs)| GTx { version, ins, outs, locktime, pad_ins, pad_outs })
+        .boxed()
+}
